@@ -72,19 +72,27 @@ func main() {
 	add(c.Pick(3, 60), cfg{4, 0, false})
 	add(c.Pick(4, 80), cfg{4, 1, false})
 	add(c.Pick(2, 40), cfg{4, 1, true})
+	// colluding-producer runs (n<0 marks the class)
+	add(c.Pick(1, 4), cfg{-1, 0, false})
+	add(c.Pick(4, 60), cfg{-3, 0, false})
+	add(c.Pick(3, 60), cfg{-4, 0, false})
 	var wg sync.WaitGroup
-	sem := make(chan struct{}, c.Pick(3, 4))
+	sem := make(chan struct{}, c.Pick(5, 5))
 	for i, rc := range runs {
 		wg.Add(1)
 		sem <- struct{}{}
 		go func(i int, rc cfg) {
 			defer wg.Done()
 			defer func() { <-sem }()
+			if rc.n < 0 {
+				collude(c, i, -rc.n)
+				return
+			}
 			run(c, i, rc.n, rc.byz, rc.lie)
 		}(i, rc)
 	}
 	wg.Wait()
-	c.Finish("n in {1,3,4} node processes with the unmodified DPoS object (signature, producer set, slot owner, LIB) run on logical slots: the slot owner produces with the real producer path on its own best block; a seeded scheduler delivers, delays, reorders, drops (with later parents-first repair) and partitions; correct nodes skip slots; with n=4 one producer is Byzantine (equivocates in its slot on the same or different parents towards different node subsets, extends stale forks, optionally lies in the Confirms header field). After every delivery on every correct node: reported LIB never decreases, lies on the node's main chain, no main-chain block at or below any LIB ever reported changes afterwards, LIB is confirmed by blocks of > 2/3 distinct producers (honest-Confirms runs), LIBs of any two correct nodes lie on one branch of the global block tree; a restarted node reports the same LIB and best block. A case = one delivery; non-trivial = delivery in a run in which LIB advanced beyond genesis; distinct = hash(run, step)",
+	c.Finish("n in {1,3,4} node processes with the unmodified DPoS object (signature, producer set, slot owner, LIB) run on logical slots: the slot owner produces with the real producer path on its own best block; a seeded scheduler delivers, delays, reorders, drops (with later parents-first repair) and partitions; correct nodes skip slots; with n=4 one producer is Byzantine (equivocates in its slot on the same or different parents towards different node subsets, extends stale forks, optionally lies in the Confirms header field). After every delivery on every correct node: reported LIB never decreases, lies on the node's main chain, no main-chain block at or below any LIB ever reported changes afterwards, LIB is confirmed by blocks of > 2/3 distinct producers (honest-Confirms runs), LIBs of any two correct nodes lie on one branch of the global block tree; a restarted node reports the same LIB and best block; a block numbered at or below the LIB the node has reported, which the node does not have, is refused. Colluding-producer runs (agreement not claimed): all producers are scripted, one correct node is observed; a second branch is started at a root on the first chain, a prefix of it is stored while the root is still at or above the LIB, the first chain grows until the LIB has passed the root, then the rest of the second branch (longer) is delivered parents- or children-first: the main chain must not change when the root is below the LIB. A case = one delivery; non-trivial = delivery in a run in which LIB advanced beyond genesis; distinct = hash(run, step)",
 		c.Pick(100, 2000),
 		"bounded: n<=4, f<=1, <=40 slots per run; agreement is explored, not proved",
 		"the Confirms header field is not validated by the code: runs in which the Byzantine producer inflates it are a separate class in which the >2/3 monitor is not applied")
@@ -216,6 +224,7 @@ func (s *sim) deliver(j, bi int, repair bool) bool {
 			}
 		}
 	}
+	libBefore := s.lib[j].no // last LIB this node reported (observed after every delivery and own block)
 	res, err := s.nodes[j].AddBlock(s.blocks[bi].bytes)
 	s.know[j][bi] = true
 	if err != nil {
@@ -229,6 +238,13 @@ func (s *sim) deliver(j, bi int, repair bool) bool {
 	s.c.Count("deliveries", 1)
 	if s.byz[j] {
 		return true
+	}
+	if s.blocks[bi].no <= libBefore {
+		s.c.Count("blocks_at_or_below_lib_delivered", 1)
+		if res == "" {
+			s.fail("block-at-or-below-lib-not-refused", fmt.Sprintf("node %d accepted block #%d (height %d) that it did not have, although it had reported LIB %d", j, bi, s.blocks[bi].no, libBefore))
+			return false
+		}
 	}
 	return s.observe(j, fmt.Sprintf("delivery of #%d", bi))
 }
